@@ -47,6 +47,18 @@ def install(R):
         return mk_int(eng.as_int(x, fr))
     S["ival"] = ival_
 
+    def iter_(eng, fr, x):
+        """the sequence a for-loop over x visits"""
+        if x.k == "V" and not ((x.meta or {}).get("seq") or (x.meta or {}).get("coll")):
+            sp = eng.iterspec(x, fr)
+            if sp.desc == "seq":
+                return SV("V", x.t, meta={"seq": True})
+            if sp.desc == "keys":
+                return SV("V", T.mkeys(x.t), meta={"seq": True})
+            return SV("V", T.iter_of(x.t), meta={"seq": True})
+        return SV("V", eng.seq_V(x, fr), meta={"seq": True})
+    S["iter_"] = iter_
+
     def seq_len(eng, fr, x):
         return mk_int(T.slen(eng.seq_V(x, fr)))
     S["slen"] = seq_len
